@@ -245,3 +245,29 @@ def replay(ctx, obj):
     codes, fl = logic.coq_codes(ctx.work, "replay_lt", {}, [([], logic.bb("compatible %s %s" % (sx.to_coq(m1), sx.to_coq(m2))))])
     print("compatible (structural lifetimes):", codes[0])
     return 0 if codes[0] == 1 else 1
+
+
+# ---------------------------------------------------------------------------------------
+# coinductive custom clauses whose body has a variable of its own
+# ---------------------------------------------------------------------------------------
+
+COIND_BASE = ("#[coinductive] trait C { } trait Is<T> { } struct A { } struct B { } struct S<T> { } "
+              "impl<T> Is<T> for T { } forall<T, U> { S<T>: C if %s }")
+COIND_GOALS = ["exists<T> { S<T>: C }", "S<A>: C", "S<B>: C", "exists<T> { S<T>: C, T: Is<A> }", "exists<T, V> { S<T>: C, S<V>: C }"]
+
+
+def coind_custom_items():
+    """`S<?T>: C` needs `S<?U>: C` for a FRESH ?U (the same canonical goal): the provisional answer of
+    the coinductive cycle changes the bindings of the next iteration, so the recursive solver's
+    fixed-point test must compare substitutions, not answer shapes.  All body orders (the recursive
+    solver pops obligations from the back) x the four (U, T) pinnings; deterministic."""
+    import itertools
+    items, pidx = [], 400000
+    conds = ["S<U>: C", "U: Is<%(x)s>", "T: Is<%(y)s>"]
+    for x, y in [("B", "A"), ("A", "A"), ("B", "B"), ("A", "B")]:
+        for perm in itertools.permutations(range(3)):
+            text = COIND_BASE % ", ".join(conds[i] % {"x": x, "y": y} for i in perm)
+            for g in COIND_GOALS:
+                items.append(sc.Item(pidx, None, text, None, g, "wide:coinductive-custom", "wide"))
+            pidx += 1
+    return items
